@@ -186,7 +186,7 @@ fn verif_search() {
                     for &sp in &splits { let e = (pos + sp).min(z.len()); run.extend_from_slice(&idat_chunk(&z[pos..e])); pos = e; if pos == z.len() { break; } }
                     if pos < z.len() { run.extend_from_slice(&idat_chunk(&z[pos..])); }
                     for tail in [&[0u8, 0, 0, 0, b'I', b'E', b'N', b'D', 0xae, 0x42, 0x60, 0x82][..], &[][..], &[1u8, 2, 3][..], &[0u8, 0, 0, 9, b'I', b'D', b'A', b'T', 1, 2][..], &[0u8, 0, 0, 0, b'I', b'D', b'A', b'T', 0, 0, 0, 0][..]] {
-                        for head in [&[0x89u8, b'P', b'N', b'G', 13, 10, 26, 10, 0, 0, 0, 0][..], &[9u8, 9, 9, 9][..]] {
+                        for head in [&[0x89u8, b'P', b'N', b'G', 13, 10, 26, 10, 0, 0, 0, 0][..], &[9u8, 9, 9, 9][..], &[][..], &[7u8][..]] {
                             let mut f = head.to_vec(); f.extend_from_slice(&run); f.extend_from_slice(tail);
                             let expanded = match std::panic::catch_unwind(|| expand_zlib_chunks(&f, 0)) { Ok(Ok(e)) => e, _ => report(&which, "expand_zlib_chunks failed on a PNG-like file", &f) };
                             if !contains(&expanded, &p) { report(&which, &format!("IDAT run ({} chunks, zlib header {:02x}{:02x}, {} bytes after the run) was copied, not expanded", splits.len(), hdr[0], hdr[1], tail.len()), &f); }
